@@ -149,6 +149,7 @@ func clearCaches() {
 	allocNames = map[*ssa.Function]map[*ssa.Alloc]string{}
 	helperFactsMemo = map[*ssa.Function]*siteFacts{}
 	pureMemo = map[*ssa.Function]*string{}
+	tupleMemo = map[*ssa.Function]map[int]*string{}
 	runtime.GC()
 }
 
